@@ -31,7 +31,7 @@ def pitch_token(step, alter, octave):
     return p + ("#" * a if a > 0 else "-" * (-a))
 
 
-def encode(asc, same_part=False):
+def encode(asc, same_part=False, split=None):
     """-> (text, expected) ; expected = {"spines": [ {part, staff, notes:[(onset_q, dur_q, step, alter, octave, grace)], "measures":[q], "timesigs":[(q,b,t)], "key": fifths, "clef": (sign, line)} ]}
     Spines are written right-to-left as in Humdrum practice (lowest staff first)."""
     spines = []
@@ -165,5 +165,34 @@ def encode(asc, same_part=False):
             rows.append(row)
     rows.append(["=="] * ncol)
     rows.append(["*-"] * ncol)
+    did_split = False
+    if split is not None and len(bars) >= 2:
+        # one spine splits into two sub-spines for one measure (the second carries a whole-measure rest) and
+        # merges again: the notation denotes the same notes, but the rows no longer have a constant number of
+        # columns, which is what sends load_kern to its spine-splitting reader
+        col = split[0] % ncol
+        mi = 1 + split[1] % (len(bars) - 1)  # never the first measure (tandem lines precede it)
+        mlen = (bars[mi + 1][0] if mi + 1 < len(bars) else end_q) - bars[mi][0]
+        r = recip(mlen)
+        i0 = next((i for i, row in enumerate(rows) if row[0].startswith("=%d" % bars[mi][1]) and not row[0].startswith("==")), None)
+        if r is not None and i0 is not None:
+            i1 = next(i for i in range(i0 + 1, len(rows)) if rows[i][0].startswith("="))
+            body = rows[i0 + 1 : i1]
+            if body and all(not row[0].startswith("*") for row in body):
+                new_body = []
+                placed = False
+                for row in body:
+                    tok = row[col]
+                    b = "."
+                    if not placed and tok != "." and not tok.endswith("q"):
+                        b = r + "r"
+                        placed = True
+                    new_body.append(row[:col] + [tok, b] + row[col + 1 :])
+                if placed:
+                    split_row = ["*"] * ncol
+                    split_row[col] = "*^"
+                    merge_row = ["*"] * col + ["*v", "*v"] + ["*"] * (ncol - col - 1)
+                    rows = rows[: i0 + 1] + [split_row] + new_body + [merge_row] + rows[i1:]
+                    did_split = True
     text = "\n".join("\t".join(r) for r in rows) + "\n"
-    return text, {"spines": expected, "end": end_q}
+    return text, {"spines": expected, "end": end_q, "split": did_split}
